@@ -148,6 +148,10 @@ theorem c01_opcode_effect (op : Nat) (hop : op < 256) (i : Instr) (hd : decode o
   rw [e]
   exact c01_instr_effect i r m hf (c01_decode_wf op hop i hd)
 
+/-- non-vacuity: 0xC4 is CALL NZ,nn (conditional: 3 cycles not taken, 6 taken) and the tables say so -/
+example : decode 0xC4 = some (.callCC .nz) ∧ Tables.gen.earlyOf 0xC4 = some (.zf, 3, 6) := by
+  decide +kernel
+
 /-- the same for the CB-prefixed opcodes (no conditional ones there) -/
 theorem c01_opcode_effect_cb (op : Nat) (hop : op < 256) (r : Regs) (m : Flat) (hf : FLow r) :
     let s := runList (Tables.gen.prefixed.getD op []) r m
@@ -172,6 +176,10 @@ theorem c01_opcode_effect_cb (op : Nat) (hop : op < 256) (r : Regs) (m : Flat) (
 theorem c01_f_low_micro (μ : MicroOp) (hμ : FSafe μ = true) (r : Regs) (m : Flat) (hf : FLow r) :
     FLow (μ.run r m).1 :=
   flow_micro μ hμ r m hf
+
+/-- non-vacuity: the flag-writing helpers are `FSafe` -/
+example : FSafe .popF = true ∧ FSafe (.alu .adc .m) = true ∧ FSafe .daa = true ∧ FSafe (.pop .a) = true := by
+  decide
 
 /-- without `FSafe` the statement fails: `ld8 f a` copies A into F -/
 example : ∃ (μ : MicroOp) (r : Regs), FLow r ∧ ∀ m : Flat, ¬ FLow (μ.run r m).1 :=
